@@ -146,7 +146,47 @@ def check(prop, tier, seed):
         mc.append(r)
         mc.append(core.tlc_mc('MC_WebClient', 'MC_WebClient_asbefore.cfg', workers=4, expect_violation='Contract'))
     stims = gen(seed, tier, prop)
+    if prop == 'C16':
+        # Mechanism model of the base64 carry buffer: model checked, the pre-fix deviation must violate, and every exported
+        # (text shape, chunking) behaviour is replayed on the real service with the model's prediction attached
+        r = core.tlc_mc('WebB64', 'MC_WebB64_big.cfg' if tier == 'thorough' else 'MC_WebB64.cfg', workers=8, timeout=1500)
+        if r.get('violated') or r.get('never_taken'):
+            raise ToolError(f'WebB64: {r.get("violated")} {r.get("never_taken")}\n' + r.get('output_tail', '')[-2500:])
+        mc.append(r)
+        mc.append(core.tlc_mc('WebB64', 'MC_WebB64_prefix.cfg', workers=4, expect_violation='NoSpuriousError'))
+        rows, st = core.tlc_export('Gen_WebB64', 'Gen_WebB64.cfg', workers=1, timeout=900)
+        mc.append(st)
+        rows2, st2 = core.tlc_export('Gen_WebB64', 'Gen_WebB64_sim.cfg', workers=1, simulate=f'num={8000 if tier == "thorough" else 1500}', seed=seed, timeout=900)
+        mc.append(st2)
+        seen = set()
+        for row in rows + rows2:
+            key = (''.join(row['text']), tuple(row['chunks']))
+            if key in seen:
+                continue
+            seen.add(key)
+            wire = bytes(65 if c == 'D' else 61 for c in row['text'])
+            chunks, p_ = [], 0
+            for k in row['chunks']:
+                chunks.append(list(wire[p_:p_ + k])); p_ += k
+            well = row['st'] == 'end'
+            stims.append({'kind': 'srv_req', 'class': 'tlc_b64_shape', 'method': 'POST', 'version': 'HTTP/1.1', 'ctype': TEXT[0], 'accept': 'none', 'text': True,
+                          'chunks_req': chunks, 'chunks_resp': [], 'trailers': [{'n': 'grpc-status', 'nb': list(b'grpc-status'), 'v': [48]}], 'inner_status': 200,
+                          'payload': [0] * row['out'] if well else [], 'wellformed': well, 'predict': {'st': row['st'], 'out': row['out']}})
     ev, path = simple.run_lab('web', stims, tag, 'web', env={'VH_HANG_SECS': '10'})
+    if prop == 'C16':
+        nd = 0
+        for run in core.split_runs(ev):
+            pr = run[0]['stim'].get('predict')
+            if not pr:
+                continue
+            body = [e for e in run if e.get('e') == 'inner_body']
+            got = ('err' if body and body[0].get('err') else 'end', len(body[0].get('bytes', [])) if body else -1)
+            if got[0] != pr['st'] or (pr['st'] == 'end' and got[1] != pr['out']):
+                nd += 1
+                if nd <= 3:
+                    verdict.drift.append(f'WebB64 predicted {pr} for chunks {[len(c) for c in run[0]["stim"]["chunks_req"]]} of a {sum(len(c) for c in run[0]["stim"]["chunks_req"])}-symbol text, the code gave {got}')
+        cov['mechanism_drift'] = f'{nd} runs differ from the Mechanism model prediction'
+        cov['b64_shape_behaviours_replayed'] = len(seen)
     simple.validate(prop, 'Trace_Web', verdict, ev, path, 'web', cov,
                     clause_filter=lambda c: c.startswith(prop + '.') or c in ('NoPanic', 'NoHang', 'NothingAfterTheEnd'),
                     harness_clauses={'UnknownEvent', 'InnerCalledOnce'})
@@ -154,7 +194,7 @@ def check(prop, tier, seed):
     return simple.finish(prop, tier, seed, verdict, cov, mc, t0,
                          ['trailer values never start with a space in the stimuli (the wire format cannot distinguish it from the optional space after the colon)',
                           'the text variant is decoded group-wise: every 4-symbol group is an independently padded base64 quantum'],
-                         ('tlc MC_WebClient*.cfg; ' if prop == 'C17' else '') + 'vh web; tlc Trace_Web.cfg')
+                         ('tlc MC_WebClient*.cfg; ' if prop == 'C17' else 'tlc MC_WebB64*.cfg, Gen_WebB64*.cfg; ') + 'vh web; tlc Trace_Web.cfg')
 
 
 def replay(prop, path):
